@@ -194,14 +194,87 @@ def rule_vec_secants(ctx):
         ctx.ok(rid, "no-shared-provider", "the two kernels do not share an argument-less table provider", fn=fns["dct8_vec_forward"])
 
 
+def rule_dct_definition(ctx):
+    """the generic scalar 1-D DCT, evaluated from MIR, is the DCT of the format"""
+    import math
+    from .. import absint
+    rid = "R-DCT-DEF"
+    ctx.rule(rid, "jxl_render::vardct::generic::dct::dct (the scalar kernel every block size and every non-SIMD target goes through, "
+                  "recursive in n) is evaluated from MIR for n = 2, 4, 8, .. 256 in both directions on an impulse and on a dense input "
+                  "and compared with the definition: forward c[k] = s(k) / n * sum x[i] cos(k (2i + 1) pi / 2n), inverse x[i] = sum "
+                  "s(k) c[k] cos(k (2i + 1) pi / 2n), s(0) = 1, s(k) = sqrt 2 (the scaling of ISO/IEC 18181-1 I.2).  The secant tables "
+                  "sec_half(n) are supplied from their formula (their stored values are a separate obligation).  The evaluator models "
+                  "the two slices as shared buffers (split_at_mut, iterators, indexed stores, the recursion).  Tolerance 1e-4 of the "
+                  "largest output.  A reordered butterfly, a fused loop that reads an overwritten neighbour, a wrong secant index or "
+                  "scale differs for some n")
+    cr = ctx.prog.crate("jxl_render")
+    f = cr.fns.get("jxl_render::vardct::generic::dct::dct")
+    adt = cr.adts.get("jxl_render::vardct::dct_common::DctDirection")
+    names = [v["name"] for v in adt["variants"]] if adt else []
+    if f is None or f.argc != 3 or sorted(names) != ["Forward", "Inverse"]:
+        ctx.anchor_missing(rid, "jxl_render::vardct::generic::dct::dct(&mut [f32], &mut [f32], DctDirection)")
+        return
+    ctx.seen(f)
+
+    def sec(args):
+        n = args[0]
+        return absint.BufView([1.0 / (2 * math.cos((2 * k + 1) * math.pi / (2 * n))) for k in range(n // 2)])
+
+    def fwd(x):
+        n = len(x)
+        return [(math.sqrt(2) if k else 1) / n * sum(x[i] * math.cos(k * (2 * i + 1) * math.pi / (2 * n)) for i in range(n)) for k in range(n)]
+
+    def inv(c):
+        n = len(c)
+        return [c[0] + sum(c[k] * math.sqrt(2) * math.cos(k * (2 * i + 1) * math.pi / (2 * n)) for k in range(1, n)) for i in range(n)]
+
+    rows, bad, undec = 0, None, None
+    for n in (2, 4, 8, 16, 32, 64, 128, 256):
+        inputs = [[1.0 if i == 1 else 0.0 for i in range(n)], [float((i * 7 + 3) % 5 - 2) + 0.25 * (i % 3) for i in range(n)]]
+        for dn, ref in (("Forward", fwd), ("Inverse", inv)):
+            for x in inputs:
+                io, sc = absint.BufView(list(x)), absint.BufView([0.0] * n)
+                ev = absint.Evaluator(ctx.prog, max_steps=3000000)
+                ev.intercept = {"dct_common::sec_half": sec, "dct_common::sec_half_small": sec}
+                try:
+                    ev.call_fn(f, [io, sc, absint.Enum("jxl_render::vardct::dct_common::DctDirection", names.index(dn), dn, [])])
+                except absint.Unsupported as e:
+                    undec = "n = %d, %s: %s" % (n, dn, e)
+                    break
+                rows += 1
+                want = ref(x)
+                got = io.items()
+                scale = max(1e-9, max(abs(v) for v in want))
+                err = max((abs(a - b) if isinstance(a, (int, float)) else float("inf")) for a, b in zip(got, want))
+                if err > 1e-4 * scale and bad is None:
+                    k = max(range(n), key=lambda i: abs(got[i] - want[i]) if isinstance(got[i], (int, float)) else float("inf"))
+                    bad = (n, dn, k, got[k], want[k])
+            if undec:
+                break
+        if undec:
+            break
+    ctx.count(rid + ".rows", rows)
+    if undec:
+        ctx.bad(rid, "dct|not-evaluable", "the generic scalar dct is no longer a function the evaluator can decide (%s)" % undec, fn=f)
+        return
+    ctx.floor(rid + ".rows", 8 * 2 * 2)
+    if bad:
+        n, dn, k, g, w = bad
+        ctx.bad(rid, "dct|definition", "%s DCT of %d points: output %d is %r, the definition gives %.7f" % (dn.lower(), n, k, g, w), fn=f)
+    else:
+        ctx.ok(rid, "dct|definition", "%d transforms (n = 2 .. 256, both directions) equal the definition within 1e-4" % rows, nontrivial=True, fn=f)
+
+
 def main(pid, tier, repo=None):
     ctx = Ctx(pid, tier, configs=("workspace",), repo=repo)
     rule_dispatch(ctx)
     rule_vec_secants(ctx)
+    rule_dct_definition(ctx)
     specconst.run(ctx, pid)
     from . import enummap
     enummap.run(ctx, pid)
-    ctx.not_decided("numerical agreement of any kernel with the mathematical definition, or between the generic and vector kernels")
+    ctx.not_decided("numerical agreement of the vector (SSE2 / AVX2 / NEON) kernels, of the 2-D driver and of the AFV / DCT2 / DCT4x8 family with "
+                    "their definition, or between the generic and vector kernels; only the generic scalar 1-D DCT is evaluated")
     return ctx.finish(
         "Dispatch agreement only: every transform type the format defines has a handler and the generic, SSE2 and SSE4.1 dispatchers "
         "route each of the 27 types to the corresponding kernel family with the same const generic argument. Extracted from the "
